@@ -150,12 +150,11 @@ def rule_pn53x_accept(report, prog):
         if b is not None:
             groups['length value'].append((t, 'false'))
             consts_['norm_len'] = (try_const(b['A']), try_const(b['K']), t)
-        if s == 'sum(frame) & 255 == 0':
-            groups['data checksum'].append((t, 'true'))
-        if s == 'frame[0] == 213':
-            groups['frame identifier D5'].append((t, 'true'))
-        if s == 'frame[1] == cmd_code + 1':
-            groups['response code == command + 1'].append((t, 'true'))
+        for txt, grp in (('sum(frame) & 255 %s 0', 'data checksum'), ('frame[0] %s 213', 'frame identifier D5'), ('frame[1] %s cmd_code + 1', 'response code == command + 1')):
+            if s == txt % '==':
+                groups[grp].append((t, 'true'))
+            if s == txt % '!=':
+                groups[grp].append((t, 'false'))
     for what, edges in sorted(groups.items()):
         okk, p = only_via(cfg, ret, edges, ps=False) if edges else (False, cfg.path(cfg.entry, ret))
         report.check(okk, 'C14-R2', key(f.qname, 'response returned only after check: ' + what), f.loc(ret.ast),
